@@ -29,8 +29,9 @@ class FrontEnd:
         script_control = web_app.get_script_control('off')
         if script_control is None:
             return self.index()
-        web_app.stop_current()
-        web_app.queue_script(script_control)
+        if not script_control.running:
+            web_app.stop_current()
+            web_app.queue_script(script_control)
         return self.render_action(script_control, "")
 
     @inject(WebApp)
